@@ -483,6 +483,9 @@ impl Mp4Track {
             let first_chunk = stsc_entry.first_chunk;
             let first_sample = stsc_entry.first_sample;
             let samples_per_chunk = stsc_entry.samples_per_chunk;
+            if samples_per_chunk == 0 {
+                return Err(Error::InvalidData("stsc entry with samples_per_chunk 0"));
+            }
 
             let chunk_id = sample_id
                 .checked_sub(first_sample)
